@@ -4,7 +4,11 @@ From Coq Require Import List NArith ZArith Bool Arith.
 From VF Require Import Base.Sx PyVal.Val PyVal.Codec Merge.Merge.
 Import ListNotations.
 
-Definition src_desc := (res (dict * str) * res (option str))%type.   (* what a recording source answers (or raises) *)
+(* a constituent: a recording source with a fixed answer (or exception) - or a composite of constituents with its own
+   merge flags (get_composite_data_source accepts data sources, and a composite is one) *)
+Inductive src_desc :=
+| SConst (g : res (dict * str)) (f : res (option str))
+| SComp (ml ms : bool) (l : list src_desc).
 (* one call pair (get_data, find_system) on a composite whose sources answer like this at that moment *)
 Record cstep := { st_srcs : list src_desc; st_sys : str; st_pd : dict; st_pv : str; st_fk : str; st_fv : val }.
 Definition ostep := (list call * res (dict * str) * list nat * res (option str))%type.
@@ -30,7 +34,14 @@ Inductive obs :=
 (* the hash as a table filled by the harness with the real _hash_str *)
 Definition table_H (t : list (str * str)) (s : str) : str :=
   match find (fun p => str_eqb s (fst p)) t with Some p => snd p | None => 63%N :: s end.
-Definition mk_source (p : src_desc) : source := const_source (fst p) (snd p).
+Fixpoint mk_source (ht : list (str * str)) (d : src_desc) : source :=
+  match d with
+  | SConst g f => const_source g f
+  | SComp ml ms l =>
+      let ss := map (mk_source ht) l in
+      {| get_data := fun sys pd pv => snd (comp_get (table_H ht) ml ms 0 ss sys pd pv);
+         find_system := fun k v => snd (comp_find 0 ss k v) |}
+  end.
 
 (* get_composite_data_source creates the constituents in order; the first one that cannot be created makes the whole
    construction fail with its error - nothing is half built, later constituents are not attempted *)
@@ -49,7 +60,7 @@ Fixpoint construct (fexc : exc) (tries : nat) (fails : list nat) : list (res uni
 Definition built (cs : list (res unit)) : bool := match last cs (Err TypeError) with Ok _ => true | Err _ => false end.
 Definition hist_model (ml ms : bool) (ht : list (str * str)) (steps : list cstep) : list ostep :=
   map (fun st =>
-         let ss := map mk_source (st_srcs st) in
+         let ss := map (mk_source ht) (st_srcs st) in
          let (glog, gres) := comp_get (table_H ht) ml ms 0 ss (st_sys st) (st_pd st) (st_pv st) in
          let (flog, fres) := comp_find 0 ss (st_fk st) (st_fv st) in
          (glog, gres, flog, fres)) steps.
@@ -58,7 +69,7 @@ Definition run_model (c : case) : obs :=
   match c with
   | CMerge ml ms a b => OMerge (merge ml ms a b) a b
   | CChain ml ms ht srcs sys pd pv fk fv =>
-      let ss := map mk_source srcs in
+      let ss := map (mk_source ht) srcs in
       let (glog, gres) := comp_get (table_H ht) ml ms 0 ss sys pd pv in
       let (flog, fres) := comp_find 0 ss fk fv in
       OChain glog gres flog fres
@@ -117,13 +128,31 @@ Definition fres_eqb (a b : res (option str)) : bool :=
 
 Definition holds_chain ml ms ht (srcs : list src_desc) sys pd pv fk fv
            (glog : list call) (gres : res (dict * str)) (flog : list nat) (fres : res (option str)) : list string :=
-  let ss := map mk_source srcs in
+  let ss := map (mk_source ht) srcs in
   let Hh := table_H ht in
   (if gres_eqb gres (chain_state Hh ml ms sys pd pv ss) then [] else ["get_data_is_fold"%string]) ++
   (if list_eqb call_eqb glog (flat_map (call_at Hh ml ms 0 sys pd pv ss) (seq 0 (length ss)))
    then [] else ["source_arguments"%string]) ++
   (let (sl, sr) := find_spec 0 ss fk fv in
    if list_eqb Nat.eqb flog sl && fres_eqb fres sr then [] else ["find_first_non_none"%string]).
+
+(* "changes its version whenever a constituent's version changes": two calls of a history with the same preceding
+   version and the same number of plain constituents, all answering, whose version lists differ, return different
+   versions.  (For the model this is an instance of the hypothesis that the hash does not collide on the strings of the
+   case, C13_composite_version_injective; it is checked per case, see validb.) *)
+Definition step_versions (st : cstep) : option (list str) :=
+  omap' (fun d => match d with SConst (Ok (_, v)) _ => Some v | _ => None end) (st_srcs st).
+Definition ostep_version (o : ostep) : option str :=
+  match o with (_, Ok (_, v), _, _) => Some v | _ => None end.
+Definition version_pair_ok (a b : cstep * ostep) : bool :=
+  match step_versions (fst a), step_versions (fst b), ostep_version (snd a), ostep_version (snd b) with
+  | Some va, Some vb, Some ra, Some rb =>
+      negb (str_eqb (st_pv (fst a)) (st_pv (fst b)) && (length va =? length vb)%nat && negb (list_eqb str_eqb va vb)) ||
+      negb (str_eqb ra rb)
+  | _, _, _, _ => true
+  end.
+Definition version_tracks (steps : list cstep) (os : list ostep) : bool :=
+  let l := List.combine steps os in forallb (fun a => forallb (version_pair_ok a) l) l.
 
 Fixpoint holds_hist ml ms ht (steps : list cstep) (os : list ostep) : list string :=
   match steps, os with
@@ -148,7 +177,9 @@ Definition holds_assoc (l r : res dict) : list string :=
 Definition holds (c : case) (o : obs) : list string :=
   match c, o with
   | CAssoc _ _ _ _ _, OAssoc l r => holds_assoc l r
-  | CHist ml ms ht steps, OHist os => holds_hist ml ms ht steps os
+  | CHist ml ms ht steps, OHist os =>
+      holds_hist ml ms ht steps os ++
+      (if version_tracks steps os then [] else ["version_changes_with_constituents"%string])
   | CBuild ml ms ht fails fexc tries steps, OBuild cns os =>
       (* every failed attempt raises the constituent's error, a composite exists only after an attempt without failure,
          and then every call is the fold over ALL configured sources *)
@@ -166,7 +197,7 @@ Definition valid (c : case) : Prop :=
   match c with
   | CMerge _ _ a b => wf (VDict a) = true /\ wf (VDict b) = true
   | CChain _ _ _ _ _ _ _ _ _ => True
-  | CHist _ _ _ _ => True
+  | CHist ml ms ht steps => version_tracks steps (hist_model ml ms ht steps) = true
   | CBuild _ _ _ _ _ _ _ => True
   | CAssoc ml ms a b c =>
       (* the triple is one on which the model's two groupings agree (checked, not proved, for every generated triple) *)
@@ -178,7 +209,7 @@ Definition validb (c : case) : bool :=
   match c with
   | CMerge _ _ a b => wf (VDict a) && wf (VDict b)
   | CChain _ _ _ _ _ _ _ _ _ => true
-  | CHist _ _ _ _ => true
+  | CHist ml ms ht steps => version_tracks steps (hist_model ml ms ht steps)
   | CBuild _ _ _ _ _ _ _ => true
   | CAssoc ml ms a b c =>
       res_same (bind (merge ml ms a b) (fun m => merge ml ms m c)) (bind (merge ml ms b c) (fun m => merge ml ms a m))
@@ -262,9 +293,14 @@ Definition ostep_of_sx (x : sx) : option ostep :=
   | _ => None
   end.
 
-Definition src_of_sx (x : sx) : option src_desc :=
+Fixpoint src_of_sx (x : sx) : option src_desc :=
   match x with
-  | L [r; f] => match gres_of_sx r, fres_of_sx f with Some r', Some f' => Some (r', f') | _, _ => None end
+  | L [I 9%Z; ml; ms; L inner] =>
+      match asBool ml, asBool ms, omap' src_of_sx inner with
+      | Some ml', Some ms', Some l => Some (SComp ml' ms' l)
+      | _, _, _ => None
+      end
+  | L [r; f] => match gres_of_sx r, fres_of_sx f with Some r', Some f' => Some (SConst r' f') | _, _ => None end
   | _ => None
   end.
 Definition cstep_of_sx (x : sx) : option cstep :=
